@@ -180,6 +180,60 @@ def run(ctx):
                     ctx.violation("a backward '. =' was not refused", inp, expected="value-out-of-bounds", observed=r.summary())
             reqs.append(asmrun.asm_request(files, 1))
             jobs.append((inp, r))
+    # ---- the same skips when nothing is known yet where the '. =' stands: the amount, the target or the link base are defined
+    # further down, the link expression mentions labels behind the skip, and more statements follow the skip
+    for it in range(1200 if ctx.thorough else 300):
+        d = rng.randint(-20, 64) if rng.random() < 0.8 else rng.choice([0, 1, 2, 255, 256, 1000])
+        linkv = rng.choice(["lit", "late", "expr"])     # without a link statement the first ". =" is the link statement
+        amount = rng.choice(["lit", "late", "early"])
+        form = rng.choice(["rel", "rel", "abs"]) if linkv in ("lit", "late") else "rel"
+        tail_n = rng.choice([1, 3, 5]) if linkv == "expr" else rng.randint(1, 4)
+        tail_lines = ["t%d: .byte %d." % (i, 7 + i) for i in range(tail_n)]
+        tail_bytes = bytes(7 + i for i in range(tail_n))
+        base = {"lit": 0o2000, "late": 0o2000, "none": 0o1000, "expr": 0o2000 + (tail_n - 1)}[linkv]
+        top, bottom = [], []
+        if linkv == "lit":
+            top.append(".link 2000")
+        elif linkv == "late":
+            top.append(".link START")
+            bottom.append("START = 2000")
+        elif linkv == "expr":
+            top.append(".link 2000 + t%d - t0" % (tail_n - 1))
+        if form == "rel":
+            mag = "GAP" if amount != "lit" else num(abs(d), rng)
+            tgt = ". %s %s" % ("+" if d >= 0 else "-", mag)
+            if amount == "late":
+                bottom.append("GAP = %s" % num(abs(d), rng))
+            elif amount == "early":
+                top.insert(0, "GAP = %s" % num(abs(d), rng))
+        else:
+            tv = base + 6 + d
+            if amount == "lit":
+                tgt = num(tv, rng)
+            else:
+                tgt = "TGT"
+                (bottom if amount == "late" else top).insert(0, "TGT = %s" % num(tv, rng))
+        rng.shuffle(bottom)
+        src = "\n".join(top + ["nop", ".word 1, 2", ". = " + tgt] + tail_lines + bottom) + "\n"
+        files = [("/w/f0.mac", src)]
+        r = impl.assemble(files)
+        inp = {"files": files, "skip": d, "link": linkv, "amount": amount, "form": form}
+        ctx.case(("skip-late", src))
+        ctx.count("skips with late knowledge")
+        ctx.count("skips: link %s, amount %s" % (linkv, amount))
+        if d >= 0:
+            want = bytes([0xa0, 0, 1, 0, 2, 0]) + bytes(d) + tail_bytes
+            if r.outcome != "ok" or r.code != want or r.base != base:
+                ctx.violation("a forward '. =' whose amount, target or base is known only later did not zero-fill the gap at the stated base", inp,
+                              expected={"base": base, "code": want.hex()}, observed=r.summary())
+        else:
+            if r.outcome == "ok" or "value-out-of-bounds" not in r.error_ids():
+                ctx.violation("a backward '. =' was not refused", inp, expected="value-out-of-bounds", observed=r.summary())
+        if linkv != "expr":
+            # (the whole-program model has no size variables besides the link base: a link expression across a skip of
+            # unknown length is outside it, DESIGN section 9)
+            reqs.append(asmrun.asm_request(files, 1))
+            jobs.append((inp, r))
     for (inp, r), a in zip(jobs, ctx.driver.ask(reqs)):
         m = asmrun.parse_answer(a)
         if m["outcome"] == "unsupported":
